@@ -1,7 +1,7 @@
 (** * Proofs for C03 (conformance in all-compliant mode). *)
 From Coq Require Import List Ascii String ZArith NArith Bool Lia.
 From Shexer Require Import Lib.PyStr Lib.Dict Gen.Consts Spec.Rdf Spec.ShexSem Model.Tracker Model.Profiler
-     Model.Tokens Model.Freq Model.FreqInst Model.Shexing Model.SerialShexc Model.Run Model.SchemaOf.
+     Model.Tokens Model.Freq Model.FreqInst Model.Shexing Model.SerialShexc Model.Run Model.SchemaOf Model.C03Dom.
 Import ListNotations.
 
 (** ** the statement the property makes about one run *)
@@ -430,9 +430,6 @@ Proof.
 Qed.
 
 (** ** one class *)
-
-Definition class_cnt (counts : ccounts) (ce : str * centry) : N :=
-  match dget counts (fst ce) with Some n => n | None => 0%N end.
 
 Definition class_base (fa : FreqAlg) (cfg : scfg) (thr : F fa) (counts : ccounts) (ce : str * centry) : list stmt :=
   base_statements fa thr (class_cnt counts ce) false (c_direct (snd ce)) ++
@@ -863,9 +860,6 @@ Proof.
   destruct (card_eqb c (CExact 1)) eqn:E; [|discriminate]. intros _. split; [reflexivity | apply card_eqb_eq; exact E].
 Qed.
 
-Definition class_pd (ce : str * centry) (inv : bool) : pdict :=
-  if inv then c_inverse (snd ce) else c_direct (snd ce).
-
 Lemma class_base_In fa cfg thr counts ce b :
   In b (class_base fa cfg thr counts ce) <->
   (s_inv b = true -> x_inverse cfg = true) /\
@@ -987,14 +981,11 @@ Section Cards.
   Variable insts : list A.
   Variable cntf : A -> bool -> str -> str -> N.
 
-  Definition n_inst (f : A -> bool) : N := N.of_nat (List.length (filter f insts)).
+  Local Notation n_inst := (C03Dom.n_inst A insts).
 
   (** when an instance with [x] values counts for cardinality key [c]
       (as Spec/Counts.v's [card_ok] of the profile characterisation) *)
-  Definition ck_ok (p : str) (c : ckey) (x : N) : bool :=
-    (0 <? x)%N &&
-    (if str_eqb p (x_tau cfg) then ckey_eqb c (CKn 1)
-     else match c with CKn m => N.eqb m x | CKplus => true end).
+  Local Notation ck_ok := (C03Dom.ck_ok cfg).
 
   (** profile well-formedness: every entry holds the number of instances that
       count for it; an exact entry of an ordinary property has a '+' sibling *)
